@@ -2,6 +2,7 @@ SPECIFICATION MCSpec
 CONSTANTS Mode = "linked"
           Vals = {0, 1, 2}
           MaxLen = 4
+          MaxHeld = 0
 VIEW View
 ACTION_CONSTRAINT DumpT
 INVARIANTS TypeOK Bounded EndsLaw
